@@ -96,8 +96,10 @@ async def roundtrip(ctx, nodes: dict, workdir: str, origin: dict) -> None:
 
     before = snap(nodes)
     canon = json.dumps(before, sort_keys=True, default=str)
-    path = os.path.join(workdir, "reg.json")
-    case = {"origin": origin, "registry": before}
+    # the file name is the application's choice; a third of the registries are stored under other names
+    names = ["reg.json", "reg.json", "reg.json.gz", "reg.gz", "reg", "reg.bak", "reg.pickle", "reg.yaml", "REG.JSON", "reg.json.bz2"]
+    path = os.path.join(workdir, names[len(canon) % len(names)] if len(canon) % 3 == 0 else "reg.json")
+    case = {"origin": origin, "registry": before, "file_name": os.path.basename(path)}
     ctx.case(canon, nontrivial=bool(before), sample={"registry": before} if len(canon) < 1500 else None)
     try:
         await Persistence(nodes, path).save()
@@ -118,11 +120,21 @@ async def roundtrip(ctx, nodes: dict, workdir: str, origin: dict) -> None:
     if diff:
         ctx.violation("roundtrip-differs", f"registry after save+load differs at {diff}", case)
         return
-    # a second load of the same file gives an INDEPENDENT registry: mutating one must not show in the other
+    # a second load of the same file gives an INDEPENDENT registry: mutating one must not show in the other; this one goes
+    # through load(path) of a Persistence object configured for ANOTHER file (import of a saved registry)
     ctx.clause("loads-are-independent")
     second: dict = {}
+    elsewhere = os.path.join(workdir, "elsewhere.json")
+    if os.path.exists(elsewhere):
+        os.unlink(elsewhere)
     try:
-        await Persistence(second, path).load()
+        await Persistence(second, elsewhere).load(path)
+        ctx.clause("load-explicit-path")
+        diff = first_difference(typed(before), typed(snap(second)))
+        if diff:
+            ctx.violation("explicit-path-not-loaded", f"Persistence(nodes, other_file).load(saved_file) does not give the "
+                                                      f"saved registry (differs at {diff})", case)
+            return
     except Exception as exc:  # noqa: BLE001
         ctx.violation("second-load-raises", f"{type(exc).__name__}: {exc!s:.100}", case)
         return
